@@ -171,4 +171,15 @@ PROPS['C15'] = {
                    'it is decided on each run by histories with mutation steps executed on the real library and compared with the state machine and with a fresh interpreter per probe.',
 }
 
+PROPS['C16'] = {
+    'group': 'plss', 'level': 'other', 'build_timeout': 2400,
+    'run_timeout': {'quick': 2400, 'thorough': 6 * 3600},
+    'explanation': 'Wall-clock time of CPython\'s regex engine is not a quantity a Gallina model can be put into checked correspondence with, so C16 is decided by a timing harness, not by a theorem: '
+                   'pumping families prefix + unit^n + suffix over the token/character vocabulary of the patterns and k-fold structural repetition, CPU time of PLSSDesc(text, parse_qq=True) per size in '
+                   'isolated workers with a hard kill; a text of <= 300 characters taking > 2 s CPU (confirmed twice) is a violation with the text as replay. Three families already violate it on the '
+                   'unchanged tree and are listed as known findings (each is re-measured on every run). Proved in Coq (the part the control code owns): the shrinking substitute-until-stable loops '
+                   'converge within length+1 passes for every text; fuel is unobservable.',
+    'technique': 'timing harness over pumping families (support for a property no model can express) + Coq termination lemmas for the control loops',
+}
+
 NOT_CLAIMED = {}
